@@ -7,7 +7,8 @@ from tempest.cluster import HierarchicalGaussianMixture
 
 def check(w):
     w = np.asarray(w, float)
-    spec = w.sum() ** 2 / (w ** 2).sum()
+    wn = w / w.max()                      # the oracle is evaluated on max-normalised weights: no overflow / underflow of its own
+    spec = wn.sum() ** 2 / (wn ** 2).sum()
     for name, f in (("effective_sample_size", tools.effective_sample_size),
                     ("_compute_effective_sample_size", HierarchicalGaussianMixture()._compute_effective_sample_size)):
         w2 = w.copy()
@@ -20,9 +21,11 @@ def check(w):
             return f"{name}={v} outside [1,{len(w)}]"
         if not np.isclose(f(w * 7.5), v, rtol=1e-9):
             return f"{name} not scale invariant"
+        if np.all(w == w[0]) and not np.isclose(v, len(w), rtol=1e-9):
+            return f"{name}={v} for {len(w)} uniform weights"
     lw = np.log(w[w > 0])
     if len(lw):
-        wp = w[w > 0]
+        wp = wn[w > 0]
         v = tools.compute_ess(lw)
         sp = wp.sum() ** 2 / (wp ** 2).sum() / len(wp)
         if not np.isclose(v, sp, rtol=1e-9):
@@ -40,6 +43,13 @@ def main():
     cands = [inp["w"]] if inp.get("w") else []
     for n in (1, 2, 3, 10, 1000):
         cands += [np.ones(n), rng.rand(n) + 1e-6, np.exp(rng.randn(n) * 5), np.r_[1e-150 * np.ones(n - 1), 1.0] if n > 1 else np.ones(1)]
+    # the stated domain: dynamic range up to 1e300 and any representable absolute scale (ESS is invariant to rescaling the weights)
+    for n in (1, 4, 100, 10000):
+        base = rng.rand(n) + 0.1
+        cands += [base * sc for sc in (1e300 / 1.2, 1e200, 1e155, 1e-155, 1e-200, 1e-300)]
+        cands += [np.full(n, sc) for sc in (1e300, 1e160, 1e-160, 1e-300)]
+        if n > 1:
+            cands += [10.0 ** np.linspace(0, 300, n), 10.0 ** np.linspace(-300, 0, n), 10.0 ** np.linspace(-150, 150, n)]
     for w in cands:
         tried += 1
         r = check(w)
